@@ -25,7 +25,33 @@
 (* Several evaluators exist at a time (file loads, trigger runs, created tasks): one runs,     *)
 (* the others are suspended in `sleepers` with their own context pointer and frame stack, so   *)
 (* two activations of one function interleave; the saved caller context lives in the FRAME.    *)
-(*   setctx name | getctx tag            (pyscript.set_global_ctx / get_global_ctx, top level) *)
+(*   setctx name | getctx tag            (pyscript.set_global_ctx: top level; get_global_ctx:  *)
+(*                                        anywhere)                                            *)
+(* Context-bound functions (closures over the evaluator they were installed for) - round 3:    *)
+(*   getctx tag | listctx tag            (pyscript.get_global_ctx() / list_global_ctx()[0])    *)
+(*   wexpr x v t tag       (task.wait_until(state_trigger="<on> and x == 'v'", timeout=t): the *)
+(*                          expression is evaluated against the GLOBALS of the running code's  *)
+(*                          context (locals are not visible): true -> log "state" at once;     *)
+(*                          false -> the evaluator is suspended for t, then logs "timeout";    *)
+(*                          x unbound there -> NameError in the caller)                        *)
+(*   task f via            (task.create(f) / task.create(m.f)) anywhere in an entry point that *)
+(*                          only runs in the event phase; the new evaluator gets its OWN       *)
+(*                          context-bound functions, whatever file created it                  *)
+(* Every evaluator has an identity `ev = [id, bound]`: `bound` is the evaluator whose pointer  *)
+(* the context-bound functions read (its own: bound = id).                                     *)
+(* Function values made by code of another file - round 3:                                     *)
+(*   def f body trig [deco dvia]   a def at file level may carry a plain decorator             *)
+(*                          (`@d` / `@m.d`, below an optional @event_trigger): f = d(f)        *)
+(*   def d body kind="deco"        decorator / factory: one parameter _fn (a function or none) *)
+(*   ldef w body           nested def inside a function: a closure over the activation's _fn,  *)
+(*                          bound as a local; its globals are those of the code that executes  *)
+(*                          the def (the file whose text it is)                                *)
+(*   ret x                 return the value of x (a local closure, "_fn", a global function)   *)
+(*   fcall                 `if _fn is not None: _fn(_d, _cb)` (the wrapped function)           *)
+(*   bindcall x f via arg  file level: x = f(arg) / x = m.f(arg) / x = m.f()  (explicit        *)
+(*                          application of a decorator, factory call)                          *)
+(*   sethook m f | dcall "hk"      m.hk = f: a function stored into another file's globals     *)
+(*                          through the module object; whoever calls hk runs it in ITS context *)
 (* fl = named deviations:                                                                      *)
 (*   "rel-sibling-name"     (pinned tree) a relative import in a package member other than     *)
 (*                          __init__.py loads the file under `alt`: a second instance          *)
@@ -34,13 +60,21 @@
 (*   "star-second-instance" from m import * executes m again                      (mutant)     *)
 (*   "scope-on-function"    the caller's context is saved per function object, not per         *)
 (*                          activation (one slot shared by all activations)       (mutant)     *)
+(*   "task-funcs-of-creator" a created task uses the context-bound functions of the evaluator  *)
+(*                          that created it                                       (mutant)     *)
+(*   "switch-by-def-site"   the context switch of a call is decided by comparing the caller's  *)
+(*                          context with the context in which the function was last BOUND by a *)
+(*                          def statement (the decorating file), not with its own   (mutant)   *)
 EXTENDS Naturals, Sequences, FiniteSets, TLC
 
 Undef == [k |-> "undef"]
 NoCb  == [k |-> "none"]
 D0    == 3                                              \* depth budget of an entry point
 Data(v) == [k |-> "data", v |-> v]
-Func(c, f, src) == [k |-> "func", ctx |-> c, name |-> f, src |-> src]     \* ctx: globals it runs against; src: file of its text
+\* ctx: globals it runs against; src: file of its text; fn: the function captured by a closure (or none);
+\* site: the context in which a def statement last bound it (only tracked under "switch-by-def-site")
+Closure(c, f, src, fn) == [k |-> "func", ctx |-> c, name |-> f, src |-> src, fn |-> fn, site |-> c]
+Func(c, f, src) == Closure(c, f, src, NoCb)
 Mod(c) == [k |-> "mod", ctx |-> c]
 
 Has(t, x) == x \in DOMAIN t
@@ -50,26 +84,33 @@ Public(x) == x \notin {"_p", "_q", "WHO_"}             \* names starting with '_
 
 \* ----------------------------------------------------------------------------- program access
 RECURSIVE FindDef(_, _)
-FindDef(body, f) ==                              \* the (last) def of f in a file body
+FindDef(body, f) ==                              \* the (last) def of f in a file body; nested defs (ldef) have names of their own
   IF body = <<>> THEN <<>>
   ELSE LET s == body[Len(body)] IN
-       IF s.op = "def" /\ s.f = f THEN s.body ELSE FindDef(SubSeq(body, 1, Len(body) - 1), f)
+       IF s.op \in {"def", "ldef"} /\ s.f = f THEN s.body
+       ELSE IF s.op \in {"def", "ldef"} /\ FindDef(s.body, f) # <<>> THEN FindDef(s.body, f)
+       ELSE FindDef(SubSeq(body, 1, Len(body) - 1), f)
 BodyOf(P, fv) == FindDef(P.files[fv.src].body, fv.name)
 
 \* ----------------------------------------------------------------------------- machine state
-\* S = [tabs, inst, ptr, stack, log, writes, queue, tasks, trigs, ok]
-Frame(code, saved, catch, own, kind, src, d, cb, fkey) ==
+\* S = [tabs, inst, ptr, stack, log, writes, queue, tasks, trigs, ok, now, sleepers, slot, ev, nid, last, ctxobs]
+\* frame: bind = "" or the global name the caller binds the returned function to; trig = event the returned function is
+\* registered for; fn = the activation's _fn (argument of a decorator / captured function of a closure)
+Frame(code, saved, catch, own, kind, src, d, cb, fkey, fn, bind, trig) ==
   [code |-> code, pc |-> 1, saved |-> saved, catch |-> catch, own |-> own, kind |-> kind, src |-> src, locals |-> <<>>,
-   d |-> d, cb |-> cb, fkey |-> fkey]
+   d |-> d, cb |-> cb, fkey |-> fkey, fn |-> fn, bind |-> bind, trig |-> trig]
+NoEv == [id |-> 0, bound |-> 0, by |-> 0]               \* by: the evaluator that created this one with task.create (0: none)
 Start(P) == [tabs |-> <<>>, inst |-> <<>>, ptr |-> "", stack |-> <<>>, log |-> <<>>, writes |-> {},
              queue |-> [i \in 1..Len(P.order) |-> [w |-> "file", c |-> P.order[i]]] \o [i \in 1..Len(P.events) |-> [w |-> "event", e |-> P.events[i]]],
-             tasks |-> <<>>, trigs |-> <<>>, ok |-> TRUE, now |-> 0, sleepers |-> <<>>, slot |-> <<>>]
+             tasks |-> <<>>, trigs |-> <<>>, ok |-> TRUE, now |-> 0, sleepers |-> <<>>, slot |-> <<>>,
+             ev |-> NoEv, nid |-> 1, last |-> <<>>, ctxobs |-> {}]
 Done(S) == S.stack = <<>> /\ S.queue = <<>> /\ S.tasks = <<>> /\ S.sleepers = <<>>
 Top(S) == S.stack[Len(S.stack)]
 Cur(S) == Top(S).code[Top(S).pc]
 Adv(S) == [S EXCEPT !.stack[Len(S.stack)].pc = @ + 1]
 Logv(S, tag, v) == [S EXCEPT !.log = Append(@, [tag |-> tag, v |-> v])]
-Lookup(S, x) == IF x = "_cb" THEN Top(S).cb ELSE IF Has(Top(S).locals, x) THEN Top(S).locals[x] ELSE Get(Get(S.tabs, S.ptr), x)
+Lookup(S, x) == IF x = "_cb" THEN Top(S).cb ELSE IF x = "_fn" THEN Top(S).fn
+                ELSE IF Has(Top(S).locals, x) THEN Top(S).locals[x] ELSE Get(Get(S.tabs, S.ptr), x)
 Table(S, c) == IF Has(S.tabs, c) THEN S.tabs[c] ELSE <<>>
 \* a write into a global table: recorded with the context the running code belongs to
 WriteG(S, c, x, v, via) ==
@@ -77,31 +118,59 @@ WriteG(S, c, x, v, via) ==
             !.writes = @ \cup {[own |-> Top(S).own, into |-> c, via |-> via]}]
 Show(v) == IF v.k = "func" THEN [k |-> "func", ctx |-> v.ctx, name |-> v.name] ELSE v      \* observable part of a value
 
+\* the context a context-bound function (get_global_ctx, list_global_ctx, the expression of task.wait_until, task.create)
+\* sees: the pointer of the evaluator it is bound to - the running one, unless a deviation binds it to another
+PtrOf(S, id) ==
+  IF \E i \in 1..Len(S.sleepers) : S.sleepers[i].ev.id = id
+  THEN S.sleepers[CHOOSE i \in 1..Len(S.sleepers) : S.sleepers[i].ev.id = id].ptr
+  ELSE IF Has(S.last, id) THEN S.last[id] ELSE ""
+CtxSeen(S) == IF S.ev.bound = S.ev.id THEN S.ptr ELSE PtrOf(S, S.ev.bound)
+ObsCtx(S) == [S EXCEPT !.ctxobs = @ \cup {[own |-> Top(S).own, seen |-> CtxSeen(S)]}]
+
 \* enter a function: the evaluator switches to the DEFINING context of the function; the caller's context is
 \* kept in the new frame (per activation)
-Enter(P, S, fv, catch, fl, d, cb) ==
-  LET to == IF "callee-in-caller-ctx" \in fl THEN S.ptr ELSE fv.ctx
-  IN [S EXCEPT !.stack = Append(@, Frame(BodyOf(P, fv), S.ptr, catch, fv.ctx, "call", fv.src, d, cb, fv)), !.ptr = to,
+EnterX(P, S, fv, catch, fl, d, cb, fn, bind, trig) ==
+  LET to == IF "callee-in-caller-ctx" \in fl THEN S.ptr
+            ELSE IF "switch-by-def-site" \in fl /\ fv.site = S.ptr THEN S.ptr ELSE fv.ctx
+  IN [S EXCEPT !.stack = Append(@, Frame(BodyOf(P, fv), S.ptr, catch, fv.ctx, "call", fv.src, d, cb, fv, fn, bind, trig)), !.ptr = to,
                !.slot = IF "scope-on-function" \in fl THEN Put(@, fv, IF S.ptr # fv.ctx THEN S.ptr ELSE "") ELSE @]
-\* leave the top frame normally: the caller's context is restored
+Enter(P, S, fv, catch, fl, d, cb) == EnterX(P, S, fv, catch, fl, d, cb, fv.fn, "", "")
+\* leave the top frame normally: the caller's context is restored; an evaluator that ends keeps its last pointer
 Leave(S, fl) ==
   LET f == Top(S)
       last == Len(S.stack) = 1
+      S0 == IF last THEN [S EXCEPT !.last = Put(@, S.ev.id, IF f.saved # "" THEN f.saved ELSE S.ptr), !.ev = NoEv] ELSE S
   IN IF "scope-on-function" \in fl /\ f.kind = "call"
      THEN LET sv == IF Has(S.slot, f.fkey) THEN S.slot[f.fkey] ELSE "" IN
-          [S EXCEPT !.stack = SubSeq(@, 1, Len(@) - 1), !.ptr = IF last THEN "" ELSE IF sv # "" THEN sv ELSE @,
-                    !.slot = Put(@, f.fkey, "")]
-     ELSE [S EXCEPT !.stack = SubSeq(@, 1, Len(@) - 1), !.ptr = IF last THEN "" ELSE f.saved]
+          [S0 EXCEPT !.stack = SubSeq(@, 1, Len(@) - 1), !.ptr = IF last THEN "" ELSE IF sv # "" THEN sv ELSE @,
+                     !.slot = Put(@, f.fkey, "")]
+     ELSE [S0 EXCEPT !.stack = SubSeq(@, 1, Len(@) - 1), !.ptr = IF last THEN "" ELSE f.saved]
 \* an exception propagates: frames are popped (pointer restored at each) up to and including the first
 \* frame entered by a try-call; its caller logs `caught` and continues
 RECURSIVE Unwind(_, _)
 Unwind(S, fl) ==
   IF S.stack = <<>> THEN S
   ELSE LET f == Top(S)
-           S1 == IF "no-restore-on-raise" \in fl THEN [S EXCEPT !.stack = SubSeq(@, 1, Len(@) - 1)] ELSE Leave(S, fl)
+           S1 == IF "no-restore-on-raise" \in fl
+                 THEN [(IF Len(S.stack) = 1 THEN [S EXCEPT !.last = Put(@, S.ev.id, S.ptr), !.ev = NoEv, !.ptr = ""] ELSE S)
+                       EXCEPT !.stack = SubSeq(@, 1, Len(@) - 1)]
+                 ELSE Leave(S, fl)
        IN IF f.catch # "" THEN Adv(Logv(S1, f.catch, Data("caught")))
-          ELSE IF f.kind \in {"file", "module"} THEN [S1 EXCEPT !.ok = FALSE]          \* a file that raises is not generated
+          ELSE IF f.kind \in {"file", "module"} \/ f.bind # "" THEN [S1 EXCEPT !.ok = FALSE]   \* a file (a decorator) that raises is not generated
           ELSE Unwind(S1, fl)
+\* the top frame ends (end of body: hasval = FALSE; `ret x`: hasval = TRUE): the caller's context is restored, then the
+\* caller binds the returned function (decorated def / bindcall) in ITS globals, logs the outcome of a try-call, goes on
+Finish(S, fl, hasval, val) ==
+  LET f == Top(S)
+      S1 == Leave(S, fl)
+      v == IF "switch-by-def-site" \in fl /\ hasval /\ val.k = "func" THEN [val EXCEPT !.site = S1.ptr] ELSE val
+      S2 == IF f.bind = "" THEN S1
+            ELSE IF hasval /\ val.k = "func"
+                 THEN LET S3 == WriteG(S1, S1.ptr, f.bind, v, "plain") IN IF f.trig = "" THEN S3 ELSE [S3 EXCEPT !.trigs = Put(@, f.trig, v)]
+                 ELSE [S1 EXCEPT !.ok = FALSE]                       \* a decorator that returns no function is not generated
+  IN IF f.catch # "" THEN Adv(Logv(S2, f.catch, Data("ok")))
+     ELSE IF f.kind = "module" THEN S2                               \* the import statement is executed again: now a lookup
+     ELSE IF Len(S.stack) = 1 THEN S2 ELSE Adv(S2)
 
 ImportCtx(s, S, fl) == IF "rel-sibling-name" \in fl THEN s.alt ELSE s.target
 Bind(S, s, c) ==                                   \* the import statement s binds names from the loaded context c
@@ -117,25 +186,49 @@ Bind(S, s, c) ==                                   \* the import statement s bin
               A(S1, ns) == IF ns = {} THEN S1 ELSE LET x == CHOOSE y \in ns : TRUE IN A(WriteG(S1, dst, x, t[x], "import"), ns \ {x})
           IN A(S, names)
 
+\* the function a call names: a name of the running code (local / global of the current context) or an attribute of a
+\* module object
+Callee(S, f, via) ==
+  LET holder == IF via = "" THEN Undef ELSE Lookup(S, via)
+  IN IF via = "" THEN Lookup(S, f) ELSE IF holder.k = "mod" THEN Get(Table(S, holder.ctx), f) ELSE Undef
+\* the running evaluator suspends until now + t; `note` = "" or the tag under which "timeout" is logged when it resumes
+Suspend(S, t, note) ==
+  LET S1 == Adv(S) IN
+  [S1 EXCEPT !.sleepers = Append(@, [ptr |-> S1.ptr, stack |-> S1.stack, wake |-> S.now + t, ev |-> S.ev, note |-> note]),
+             !.stack = <<>>, !.ptr = "", !.ev = NoEv]
+
 \* one step of the running evaluator
 Exec(P, S, fl) ==
   LET f == Top(S) IN
-  IF f.pc > Len(f.code)
-  THEN (IF f.catch # "" THEN Adv(Logv(Leave(S, fl), f.catch, Data("ok"))) ELSE IF f.kind = "module" THEN Leave(S, fl)
-        ELSE IF Len(S.stack) = 1 THEN Leave(S, fl) ELSE Adv(Leave(S, fl)))
+  IF f.pc > Len(f.code) THEN Finish(S, fl, FALSE, Undef)
   ELSE LET s == Cur(S) IN
   CASE s.op = "set"  -> Adv(WriteG(S, S.ptr, s.x, Data(s.v), "plain"))
     [] s.op = "loc"  -> Adv([S EXCEPT !.stack[Len(S.stack)].locals = Put(@, s.x, Data(s.v))])
     [] s.op = "read" -> Adv(Logv(S, s.tag, Show(Lookup(S, s.x))))
     [] s.op = "readattr" -> LET m == Lookup(S, s.m) IN Adv(Logv(S, s.tag, IF m.k = "mod" THEN Show(Get(Table(S, m.ctx), s.x)) ELSE Undef))
     [] s.op = "setattr"  -> LET m == Lookup(S, s.m) IN IF m.k = "mod" THEN Adv(WriteG(S, m.ctx, s.x, Data(s.v), "module-object")) ELSE Unwind(S, fl)
+    [] s.op = "sethook"  -> LET m == Lookup(S, s.m)                    \* m.hk = f
+                                v == Lookup(S, s.f)
+                            IN IF m.k = "mod" /\ v.k = "func" THEN Adv(WriteG(S, m.ctx, "hk", v, "module-object")) ELSE Unwind(S, fl)
     [] s.op = "raise" -> Unwind(S, fl)
-    [] s.op = "def"  -> LET fv == Func(S.ptr, s.f, f.src)
-                            S1 == WriteG(S, S.ptr, s.f, fv, "plain")
-                        IN Adv(IF s.trig = "" THEN S1 ELSE [S1 EXCEPT !.trigs = Put(@, s.trig, fv)])
+    [] s.op = "def"  ->
+         LET fv == Func(S.ptr, s.f, f.src)
+             dv == IF s.deco = "" THEN Undef ELSE Callee(S, s.deco, s.dvia)
+         IN IF s.deco = ""
+            THEN LET S1 == WriteG(S, S.ptr, s.f, fv, "plain")
+                 IN Adv(IF s.trig = "" THEN S1 ELSE [S1 EXCEPT !.trigs = Put(@, s.trig, fv)])
+            ELSE IF dv.k = "func" THEN EnterX(P, S, dv, "", fl, f.d, NoCb, fv, s.f, s.trig)        \* f = d(f)
+            ELSE [S EXCEPT !.ok = FALSE]                                                             \* unknown decorator: not generated
+    [] s.op = "ldef" -> Adv([S EXCEPT !.stack[Len(S.stack)].locals = Put(@, s.f, Closure(S.ptr, s.f, f.src, f.fn))])
+    [] s.op = "ret"  -> Finish(S, fl, TRUE, Lookup(S, s.x))
+    [] s.op = "fcall" -> IF f.fn.k = "func" THEN Enter(P, S, f.fn, "", fl, f.d, f.cb) ELSE Adv(S)
+    [] s.op = "bindcall" ->
+         LET dv == Callee(S, s.f, s.via)
+             arg == IF s.arg = "" THEN NoCb ELSE Lookup(S, s.arg)
+         IN IF dv.k = "func" /\ arg.k \in {"func", "none"} THEN EnterX(P, S, dv, "", fl, f.d, NoCb, arg, s.x, "")
+            ELSE [S EXCEPT !.ok = FALSE]
     [] s.op \in {"call", "trycall"} ->
-         LET holder == IF s.via = "" THEN Undef ELSE Lookup(S, s.via)
-             fv == IF s.via = "" THEN Lookup(S, s.f) ELSE IF holder.k = "mod" THEN Get(Table(S, holder.ctx), s.f) ELSE Undef
+         LET fv == Callee(S, s.f, s.via)
              catch == IF s.op = "trycall" THEN s.tag ELSE ""
          IN IF fv.k = "func" THEN Enter(P, S, fv, catch, fl, f.d, NoCb)
             ELSE IF s.op = "trycall" THEN Adv(Logv(S, s.tag, Data("NameError")))       \* not visible here: rendered with except NameError
@@ -144,50 +237,57 @@ Exec(P, S, fl) ==
          LET c == ImportCtx(s, S, fl)
              again == "star-second-instance" \in fl /\ s.form = "star" /\ Get(S.inst, c) = 1
          IN IF Has(S.inst, c) /\ ~again THEN Adv(Bind(S, s, c))                              \* lookup before load: the one instance
-            ELSE [S EXCEPT !.stack = Append(@, Frame(P.files[s.target].body, S.ptr, "", c, "module", s.target, D0, NoCb, Undef)), !.ptr = c,
-                           !.tabs = Put(@, c, <<>>), !.inst = Put(@, c, IF Has(S.inst, c) THEN S.inst[c] + 1 ELSE 1)]
-    [] s.op = "task"   -> LET fv == Lookup(S, s.f) IN Adv(IF fv.k = "func" THEN [S EXCEPT !.tasks = Append(@, [fv |-> fv, from |-> S.ptr])] ELSE S)
-    [] s.op = "sleep"  -> LET S1 == Adv(S) IN                          \* suspend: another evaluator runs
-                          [S1 EXCEPT !.sleepers = Append(@, [ptr |-> S1.ptr, stack |-> S1.stack, wake |-> S.now + s.t]),
-                                     !.stack = <<>>, !.ptr = ""]
+            ELSE [S EXCEPT !.stack = Append(@, Frame(P.files[s.target].body, S.ptr, "", c, "module", s.target, D0, NoCb, Undef, NoCb, "", "")),
+                           !.ptr = c, !.tabs = Put(@, c, <<>>), !.inst = Put(@, c, IF Has(S.inst, c) THEN S.inst[c] + 1 ELSE 1)]
+    [] s.op = "task"   -> LET fv == Callee(S, s.f, s.via)                \* task.create is context-bound too: the new evaluator starts in
+                          IN Adv(IF fv.k = "func"                        \* the context its creator's functions see
+                                 THEN [S EXCEPT !.tasks = Append(@, [fv |-> fv, from |-> CtxSeen(S), by |-> S.ev.id])] ELSE S)
+    [] s.op = "sleep"  -> Suspend(S, s.t, "")                            \* suspend: another evaluator runs
     [] s.op = "dcall"  ->
          IF f.d = 0 THEN Adv(S)
-         ELSE LET holder == IF s.via = "" THEN Undef ELSE Lookup(S, s.via)
-                  fv == IF s.via = "" THEN Lookup(S, s.f) ELSE IF holder.k = "mod" THEN Get(Table(S, holder.ctx), s.f) ELSE Undef
+         ELSE LET fv == Callee(S, s.f, s.via)
                   cb == IF s.cb = "" THEN NoCb ELSE Lookup(S, s.cb)
               IN IF s.f = "_cb" /\ fv = NoCb THEN Adv(S)                                   \* no callback was passed
                  ELSE IF fv.k = "func" /\ cb.k \in {"func", "none"} THEN Enter(P, S, fv, "", fl, f.d - 1, cb)
                  ELSE Unwind(S, fl)
     [] s.op = "setctx" -> Adv([S EXCEPT !.ptr = s.name, !.stack[Len(S.stack)].own = s.name])
-    [] s.op = "getctx" -> Adv(Logv(S, s.tag, Data(S.ptr)))
+    [] s.op \in {"getctx", "listctx"} -> Adv(Logv(ObsCtx(S), s.tag, Data(CtxSeen(S))))
+    [] s.op = "wexpr"  -> LET v == Get(Table(S, CtxSeen(S)), s.x) IN          \* globals only: locals are not visible to the expression
+                          IF v = Undef THEN Unwind(ObsCtx(S), fl)                 \* NameError raised in the caller
+                          ELSE IF v = Data(s.v) THEN Adv(Logv(ObsCtx(S), s.tag, Data("state")))
+                          ELSE Suspend(ObsCtx(S), s.t, s.tag)
 
 \* when no evaluator runs: created tasks first (in order); then a suspended evaluator (index i of `sleepers`;
 \* the acceptor resumes the one that wakes first, the state machine any of them); then the next file to load;
 \* finally all events are fired in one burst (every triggered function becomes an evaluator)
-StartFrame(P, fv) == Frame(BodyOf(P, fv), "", "", fv.ctx, "call", fv.src, D0, NoCb, fv)
+StartFrame(P, fv) == Frame(BodyOf(P, fv), "", "", fv.ctx, "call", fv.src, D0, NoCb, fv, fv.fn, "", "")
 RECURSIVE Fire(_, _, _)
 Fire(P, S, q) ==
   IF q = <<>> THEN S
   ELSE LET w == Head(q) IN
        IF w.w = "event" /\ Has(S.trigs, w.e)
-       THEN Fire(P, [S EXCEPT !.sleepers = Append(@, [ptr |-> S.trigs[w.e].ctx, stack |-> <<StartFrame(P, S.trigs[w.e])>>, wake |-> S.now])], Tail(q))
+       THEN Fire(P, [S EXCEPT !.sleepers = Append(@, [ptr |-> S.trigs[w.e].ctx, stack |-> <<StartFrame(P, S.trigs[w.e])>>, wake |-> S.now,
+                                                      ev |-> [id |-> S.nid, bound |-> S.nid, by |-> 0], note |-> ""]),
+                              !.nid = @ + 1], Tail(q))
        ELSE Fire(P, S, Tail(q))
 FirstAwake(S) == CHOOSE i \in 1..Len(S.sleepers) : \A j \in 1..Len(S.sleepers) :
                    S.sleepers[i].wake < S.sleepers[j].wake \/ (S.sleepers[i].wake = S.sleepers[j].wake /\ i <= j)
 Resume(S, i) ==
-  LET e == S.sleepers[i] IN
-  [S EXCEPT !.ptr = e.ptr, !.stack = e.stack, !.now = IF e.wake > S.now THEN e.wake ELSE S.now,
-            !.sleepers = SubSeq(@, 1, i - 1) \o SubSeq(@, i + 1, Len(@))]
+  LET e == S.sleepers[i]
+      S1 == [S EXCEPT !.ptr = e.ptr, !.stack = e.stack, !.now = IF e.wake > S.now THEN e.wake ELSE S.now, !.ev = e.ev,
+                      !.sleepers = SubSeq(@, 1, i - 1) \o SubSeq(@, i + 1, Len(@))]
+  IN IF e.note = "" THEN S1 ELSE Logv(S1, e.note, Data("timeout"))
 Dispatch(P, S, fl, i) ==
   IF S.tasks # <<>>
-  THEN LET t == Head(S.tasks)                \* a new evaluator created in the creator's context calls the function
-           S1 == [S EXCEPT !.tasks = Tail(@), !.ptr = t.from]
-       IN [Enter(P, S1, t.fv, "", fl, D0, NoCb) EXCEPT !.stack[1].saved = ""]
+  THEN LET t == Head(S.tasks)                \* a new evaluator, created in the creator's context, calls the function
+           S1 == [S EXCEPT !.tasks = Tail(@), !.ptr = t.from, !.nid = @ + 1,
+                           !.ev = [id |-> S.nid, bound |-> IF "task-funcs-of-creator" \in fl THEN t.by ELSE S.nid, by |-> t.by]]
+       IN Enter(P, S1, t.fv, "", fl, D0, NoCb)
   ELSE IF S.sleepers # <<>> THEN Resume(S, i)
   ELSE LET w == Head(S.queue) IN
        IF w.w = "file"
-       THEN [S EXCEPT !.queue = Tail(@), !.stack = <<Frame(P.files[w.c].body, "", "", w.c, "file", w.c, D0, NoCb, Undef)>>, !.ptr = w.c,
-                      !.tabs = Put(@, w.c, <<>>), !.inst = Put(@, w.c, 1)]
+       THEN [S EXCEPT !.queue = Tail(@), !.stack = <<Frame(P.files[w.c].body, "", "", w.c, "file", w.c, D0, NoCb, Undef, NoCb, "", "")>>,
+                      !.ptr = w.c, !.tabs = Put(@, w.c, <<>>), !.inst = Put(@, w.c, 1), !.ev = [id |-> S.nid, bound |-> S.nid, by |-> 0], !.nid = @ + 1]
        ELSE [Fire(P, S, S.queue) EXCEPT !.queue = <<>>]
 StepPick(P, S, fl, i) == IF S.stack = <<>> THEN Dispatch(P, S, fl, i) ELSE Exec(P, S, fl)
 Step(P, S, fl) == StepPick(P, S, fl, IF S.sleepers = <<>> THEN 0 ELSE FirstAwake(S))
@@ -206,6 +306,9 @@ WritesOnlyToOwnGlobals(S) == \A w \in S.writes : w.via \in {"plain", "import"} =
 PointerRestoredOnEveryExit(S) ==
   /\ S.stack # <<>> => S.ptr = Top(S).own
   /\ \A i \in 1..Len(S.sleepers) : S.sleepers[i].ptr = S.sleepers[i].stack[Len(S.sleepers[i].stack)].own      \* suspended evaluators too
+\* the context-bound functions (current context, expressions handed to task.wait_until) resolve against the context of
+\* the code that calls them - whichever file, trigger or task started the evaluator that runs it
+ContextFunctionsFollowTheCode(S) == \A o \in S.ctxobs : o.seen = o.own
 \* however many importers and import forms: every file was executed at most once
 OneInstancePerModule(S) == \A c \in DOMAIN S.inst : S.inst[c] <= 1
 \* ... and under one name: no two contexts run the text of the same file
